@@ -729,4 +729,66 @@ theorem xrLoadR_persist (c : Codec β) (hc : c.Lawful) (r pfx : String) (url : O
   simp only [xrLoadR, hc (.dict _), toDict_eq_self (newDict_nodup c r src f), newDict_self,
     toDict_eq_self (persistLoop_nodup _ _ (toDict_nodup _))]
 
+/-! ### `Compile.parse` -/
+
+/-- the labels after the loop over the files, as a function -/
+def parseFold (c : Codec β) (r job : String) : List (String × File β) → Labels → Labels
+  | [], L => L
+  | (name, f) :: rest, L =>
+    if name = job then parseFold c r job rest L else parseFold c r job rest (restoreFrom (oldSection c r f) L)
+
+theorem parseRestores_eq (c : Codec β) (r job : String) (files : List (String × File β)) (L : Labels) :
+    parseRestores c r job files L = .ok (parseFold c r job files L) := by
+  induction files generalizing L with
+  | nil => rfl
+  | cons hd t ih =>
+    obtain ⟨name, f⟩ := hd
+    simp only [parseRestores, parseFold]
+    split
+    · exact ih L
+    · rw [restore_eq]; exact ih _
+
+theorem restoreFrom_mono (sec : Option Val) (L : Labels) (k : Key) (h : k ∈ keys L) : k ∈ keys (restoreFrom sec L) := by
+  unfold restoreFrom
+  split
+  · exact restoreLoop_mono _ _ _ h
+  · exact h
+
+theorem parseFold_mono (c : Codec β) (r job : String) (files : List (String × File β)) (L : Labels) (k : Key)
+    (h : k ∈ keys L) : k ∈ keys (parseFold c r job files L) := by
+  induction files generalizing L with
+  | nil => exact h
+  | cons hd t ih =>
+    obtain ⟨name, f⟩ := hd
+    simp only [parseFold]
+    split
+    · exact ih L h
+    · exact ih _ (restoreFrom_mono _ _ _ h)
+
+/-- nothing is invented by the loop: a label present afterwards was known before or is a key of the section of a
+    file that is not the job's own -/
+theorem parseFold_origin (c : Codec β) (r job : String) (files : List (String × File β)) (L : Labels) (k : Key)
+    (h : k ∈ keys (parseFold c r job files L)) :
+    k ∈ keys L ∨ ∃ nf ∈ files, nf.1 ≠ job ∧ ∃ data, oldSection c r nf.2 = some (.dict data) ∧ k ∈ keys (toDict data) := by
+  induction files generalizing L with
+  | nil => exact Or.inl h
+  | cons hd t ih =>
+    obtain ⟨name, f⟩ := hd
+    simp only [parseFold] at h
+    split at h
+    · rcases ih L h with h' | ⟨nf, hnf, rest⟩
+      · exact Or.inl h'
+      · exact Or.inr ⟨nf, List.mem_cons_of_mem _ hnf, rest⟩
+    · next hne =>
+      rcases ih _ h with h' | ⟨nf, hnf, rest⟩
+      · unfold restoreFrom at h'
+        split at h'
+        · next data hsec =>
+          obtain ⟨n, hn⟩ := Option.isSome_iff_exists.1 ((aget_isSome_iff k _).2 h')
+          rcases restoreLoop_origin _ _ _ _ hn with h0 | ⟨v, hv, _⟩
+          · exact Or.inl ((aget_isSome_iff k L).1 (by simp [h0]))
+          · exact Or.inr ⟨(name, f), List.mem_cons_self, hne, data, hsec, List.mem_map.2 ⟨(k, v), hv, rfl⟩⟩
+        · exact Or.inl h'
+      · exact Or.inr ⟨nf, List.mem_cons_of_mem _ hnf, rest⟩
+
 end PlasVerif.Proofs.Persist
